@@ -4339,3 +4339,12 @@ impl<T: TypeConfig> LeaderState<T> {
         }
     }
 }
+
+// Verification hook (compiled only with `--cfg d_engine_verif`; add-only, no behaviour change).
+#[cfg(d_engine_verif)]
+impl<T: TypeConfig> LeaderState<T> {
+    /// Copy of the cached cluster topology (`single_voter`, `total_voters`, `replication_targets`).
+    pub fn verif_cluster_metadata(&self) -> ClusterMetadata {
+        self.cluster_metadata.clone()
+    }
+}
